@@ -199,6 +199,21 @@ def build(tier="quick", seed=0):
         name = f"C15.timestamps[{width} field(s) named from a / ts / ts_description / b, every type assignment]"
         pack.add(Obligation(name, run_ts(width), replay=lambda w: {"call": "c15_timestamps", "args": {"fields": w.get("fields")}}, functions=FU, mode="bounded width, every ordered choice of names incl. ts / ts_description and every assignment of datetime / varint / string"))
 
+    # a record's own field named 'ts' / 'ts_description' collides with the two fields the expansion adds: "keeps all original non-metadata fields" cannot hold for it
+    for ft, fname in (("string", "ts"), ("string", "ts_description"), ("datetime", "ts")):
+        name = f"C15.timestamps.collision[own {ft} field named {fname} next to a timestamp field 'created']"
+
+        def th_col(ft=ft, fname=fname):
+            D = it.call(RD, ["c15/ts", [(ft, fname), ("datetime", "created")]], {})
+            own = DTV[0] if ft == "datetime" else "own text"
+            rec = it.call(D, [], {fname: own, "created": DTV[1]})
+            out = list(it.iterate(it.call(base.g["iter_timestamped_records"], [rec], {})))
+            exp = [o for o in out if it.unbase(o.attrs.get("ts_description")) == "created" or it.unbase(o.attrs.get("ts")) == DTV[1]]
+            return own, [it.unbase(o.attrs.get(fname)) for o in exp], len(out)
+
+        pack.add(Obligation(name, lambda tier, name=name, th_col=th_col, fname=fname: prove_paths(name, th_col, lambda p: (bool(p.value[1]) and all(v == p.value[0] for v in p.value[1]), f"the expansion for 'created' holds {fname}={p.value[1]!r}, the original record holds {p.value[0]!r}")),
+                            replay=lambda w, ft=ft, fname=fname: {"call": "c15_ts_collision", "args": {"ftype": ft, "fname": fname}}, functions=FU, mode="the colliding names"))
+
     # ------------------------------------------------------------------ grouped records
     def run_grouped(nmem, k):
         def run(tier):
@@ -255,6 +270,60 @@ def build(tier="quick", seed=0):
             continue
         name = f"C15.grouped[{nmem} members x {k} field(s)]"
         pack.add(Obligation(name, run_grouped(nmem, k), replay=lambda w: {"call": "c15_grouped", "args": {"members": w.get("members")}}, functions=FU, mode="bounded-width shape, every equality pattern of the field names, symbolic values"))
+
+    # replace-style copy of a grouped record: only the named field changes - in the flat view AND in the members (which are what is written to a stream)
+    def th_grp_replace(named):
+        def th():
+            A = it.call(RD, ["c15/ma", [("string", "x"), ("varint", "n")]], {})
+            B = it.call(RD, ["c15/mb", [("string", "x"), ("string", "y")]], {})
+            a = it.call(A, [], {"x": "ax", "n": SInt(vals[0]), "_source": "sa"})
+            b = it.call(B, [], {"x": "bx", "y": "by", "_source": "sb"})
+            g = it.call(GR, ["c15/grp", [a, b]], {})
+            before = len(it.writes)
+            g2 = it.call(it.getattr_(g, "_replace"), [], dict(named))
+            wrote = [(o.cls.name, at) for (o, at) in it.writes[before:] if o is a or o is b]
+            ms = it.getattr_(g2, "records")
+            obs = [{k_: m.attrs.get(k_) for k_ in ("x", "n", "y", "_source") if k_ in m.attrs} for m in ms]
+            return obs, wrote
+
+        return th
+
+    def judge_grp_replace(named):
+        def judge(p):
+            obs, wrote = p.value
+            if wrote:
+                return False, f"the members of the original group were modified: {wrote}"
+            want = [{"x": "ax", "n": None, "_source": "sa"}, {"x": "bx", "y": "by", "_source": "sb"}]
+            for k_, v in named.items():
+                next(m for m in want if k_ in m)[k_] = v  # the first member that has the field
+            if len(obs) != 2:
+                return False, f"{len(obs)} members"
+            conj = []
+            for got, w_ in zip(obs, want):
+                for k_, v in w_.items():
+                    if k_ == "n":
+                        conj.append(it.zint(got.get("n")) == vals[0])
+                    elif it.unbase(got.get(k_)) != v:
+                        return False, f"_replace({named}): member field {k_} is {it.unbase(got.get(k_))!r}, expected {v!r}"
+            return z3.And(*conj), "member field n changed"
+        return judge
+
+    for named in ({}, {"y": "new"}, {"x": "new"}, {"_source": "new"}):
+        name = f"C15.grouped.replace[{', '.join(named) or 'no field named'}]"
+        pack.add(Obligation(name, lambda tier, name=name, named=named: prove_paths(name, th_grp_replace(named), judge_grp_replace(named)), replay=lambda w, named=named: {"call": "c15_grouped_replace", "args": {"named": named}}, functions=FU,
+                            mode="two members that share a field name and hold different values"))
+
+    # a member field whose name is one of GroupedRecord's own attributes
+    for fname in ("name", "records", "descriptors", "flat_fields"):
+        name = f"C15.grouped.collision[member field named {fname}]"
+
+        def th_gc(fname=fname):
+            A = it.call(RD, ["c15/ma", [("string", fname), ("string", "x")]], {})
+            g = it.call(GR, ["c15/grp", [it.call(A, [], {fname: "member value", "x": "ax"})]], {})
+            return it.unbase(it.getattr_(g, fname)), it.unbase(it.call(it.getattr_(g, "_asdict"), [], {}).get(fname))
+
+        pack.add(Obligation(name, lambda tier, name=name, th_gc=th_gc, fname=fname: prove_paths(name, th_gc, lambda p: (p.value == ("member value", "member value"), f"the group answers {fname}={p.value[0]!r} / _asdict()[{fname!r}]={p.value[1]!r}, the member holds 'member value'")),
+                            replay=lambda w, fname=fname: {"call": "c15_grouped_collision", "args": {"fname": fname}}, functions=FU, mode="the colliding names"))
 
     # ------------------------------------------------------------------ projection / exclusion
     def run_rewrite(tier):
